@@ -33,3 +33,22 @@ Theorem C16_pinned_code_refuted : exists ops except k,
   search engine_ids (snd (open_pinned tbl3 s' except)) k <> spec tbl3 engine_ids except k.
 Proof. exact C16_history_refuted. Qed.
 Print Assumptions C16_pinned_code_refuted.
+
+(* the first open under concurrency (VecCache2.v): an open is two critical sections (look-up under
+   the read lock; on a miss, re-check + load + insert under the write lock); for EVERY interleaving
+   of these sections of any number of threads with closes and expiry passes the accounting
+   invariant holds; tie/CacheTie.v checks that the source has this shape, re-check included *)
+Require ZV.VecCache2.
+Theorem C16_double_checked_open : forall (tbl : list (vid * doc)) ops s p, LInv s -> VecCache2.ok2 tbl true (s, p) ops ->
+  let s' := fst (fold_left (VecCache2.step2 tbl true) ops (s, p)) in
+  LInv s' /\ (0 < handles s' -> cache s' <> None) /\
+  (handles s' = 0 -> created (seg_close s') = released (seg_close s') /\ cache (seg_close s') = None).
+Proof. exact VecCache2.C16_double_checked_open. Qed.
+Print Assumptions C16_double_checked_open.
+
+Theorem C16_no_recheck_refuted : forall (tbl : list (vid * doc)), exists ops,
+  VecCache2.ok2 tbl false (init, 0) ops /\
+  let s' := fst (fold_left (VecCache2.step2 tbl false) ops (init, 0)) in
+  handles s' = 0 /\ created (seg_close s') <> released (seg_close s').
+Proof. exact VecCache2.C16_no_recheck_refuted. Qed.
+Print Assumptions C16_no_recheck_refuted.
